@@ -17,6 +17,11 @@ impl FileTracker {
         self.files.first().unwrap()
     }
 
+    /// Get the last FileNumber tracked
+    pub fn last(&self) -> &FileNumber {
+        self.files.last().unwrap()
+    }
+
     /// Remove the oldest tracked file if it is no longer used
     ///
     /// By design the last file is always considered used.
